@@ -21,7 +21,8 @@ EXPLANATION = (
     'same bit layout (to-file 0-2, to-row 3-5, from-file 6-8, from-row 9-11, promotion 12-14) and inverse castling conversions for '
     'all four castling moves; Book::pieceToProm / promToPiece are inverse (constant evaluation over all codes); (3) a failed file read '
     'zero-fills the entry before deSerialize uses it, the binary search keeps lo = -1 / hi = numEntries as exclusive bounds so only '
-    'indices 0..n-1 are read, and the scan loop is bounded by numEntries; (4) the weight accumulator of getBookMove is wide enough for (widest stored weight) x (largest entry count of a file) and the random pick is defined for every total (found and fixed defect D12: Random::nextInt never returns for a modulus above 2^30).')
+    'indices 0..n-1 are read, and the scan loop is bounded by numEntries; (4) the weight accumulator of getBookMove is wide enough for (widest stored weight) x (largest entry count of a file) and the random pick is defined for every total (found and fixed defect D12: Random::nextInt never returns for a modulus above 2^30).'
+    ' Added later; (6) the cumulative-weight test of getBookMove, replayed for every weight vector over {0..3} of length 1..4 and every draw, chooses entry k exactly weight(k) times.')
 UNDECIDED = 'that a corrupt file never produces a legal but wrong move; selection probabilities.'
 ASSUMPTIONS = ['MoveGen::pseudoLegalMoves + removeIllegal produce exactly the legal moves (property C01)',
                'book files are smaller than 2^40 bytes (used only to bound the number of entries under one key in C18.4)']
@@ -39,6 +40,7 @@ def run(fb, rep, tier):
     c3_files(fb, rep)
     c4_weight_sum(fb, rep)
     c5_file_positions(fb, rep)
+    c6_selection_rule(fb, rep)
 
 
 def c1_validate(fb, rep):
@@ -482,3 +484,78 @@ def c5_file_positions(fb, rep):
                 rep.ob(clause, 'K11 width agreement', 'the entry index parameter of the read helper is a 64-bit quantity', (_value_bits(p_.get('ct') or p_.get('t')) or 0) >= 63, g.where,
                        'parameter %s: %s' % (p_.get('n'), p_.get('t')), ge.sname)
     rep.floor(clause, 'seek offsets computed from an entry index', n_seek, 1)
+
+
+# ----------------------------------------------------------------------------- .6
+
+def c6_selection_rule(fb, rep):
+    """K12 the weighted pick.  getBookMove draws r uniformly from [0, total) and walks the entries accumulating their
+    weights; entry k must be chosen exactly for the w_k values cum_{k-1} <= r < cum_k.  From the loop the rule extracts
+    whether the weight is added before the test, the comparison operator and its operand order, and replays that
+    decision procedure for every weight vector over {0, 1, 2, 3} of length 1..4 and every r: each entry must be chosen for
+    exactly w_k values of r - a stored move with positive weight has positive probability, one with weight 0 has none,
+    and the walk always ends inside the list."""
+    clause = 'C18.6'
+    f = fb.find1('Book::getBookMove')
+    if rep.need(clause, f, 'Book::getBookMove') is None:
+        return
+    # the drawn number: a local initialised from the generator (a Random:: call or `% total`)
+    rnd = None
+    for _, _, e in f.events():
+        if e.get('k') == 'decl':
+            for v in e.get('vars', []):
+                init = v.get('init')
+                if init is not None and any((n.get('k') == 'call' and cname(n).startswith('Random::')) for n in walk(init)):
+                    rnd = v['id']
+    acc = {}
+    for b, i, e in f.events():
+        if e.get('k') == 'asg' and e.get('op') == '+=' and isinstance(e.get('l'), dict) and e['l'].get('k') == 'var' and \
+                any(n.get('k') == 'call' and cname(n) == 'Book::getWeight' for n in walk(e.get('r') or {})):
+            acc.setdefault(e['l']['id'], []).append((b, i))
+    if rep.need(clause, rnd, 'the drawn random number of getBookMove') is None or rep.need(clause, acc, 'the weight accumulator') is None:
+        return
+    tests = []
+    for bid, blk in f.blocks.items():
+        t = blk.get('term') or {}
+        c = _strip(t.get('cond'))
+        if t.get('c') == 'IfStmt' and isinstance(c, dict) and c.get('k') == 'bin' and c.get('op') in ('<', '<=', '>', '>='):
+            l, r = _strip(c.get('l')), _strip(c.get('r'))
+            ids = {(l or {}).get('id'), (r or {}).get('id')}
+            if rnd in ids and ids & set(acc):
+                a_id = (ids & set(acc)).pop()
+                op = c['op'] if (l or {}).get('id') == rnd else {'<': '>', '<=': '>=', '>': '<', '>=': '<='}[c['op']]   # normalised: rnd OP acc
+                # is the accumulation of this round before the test?  (same block earlier, or a dominating block inside the loop)
+                before = any(b == bid for b, i in acc[a_id]) or any(b in f.dominators().get(bid, set()) and G._reaches(f, bid, b) for b, i in acc[a_id])
+                tests.append((bid, op, before, t.get('ln')))
+    rep.floor(clause, 'selection tests comparing the drawn number with the running weight', len(tests), 1)
+    import itertools
+    for bid, op, before, ln in tests:
+        bad = []
+        for n in range(1, 5):
+            for ws in itertools.product(range(0, 4), repeat=n):
+                total = sum(ws)
+                if total == 0:
+                    continue
+                counts = [0] * n
+                fell = 0
+                for r in range(total):
+                    cum = 0
+                    chosen = None
+                    for k, w in enumerate(ws):
+                        if before:
+                            cum += w
+                        hit = {'<': r < cum, '<=': r <= cum, '>': r > cum, '>=': r >= cum}[op]
+                        if hit:
+                            chosen = k
+                            break
+                        if not before:
+                            cum += w
+                    if chosen is None:
+                        fell += 1
+                    else:
+                        counts[chosen] += 1
+                if list(counts) != list(ws) or fell:
+                    if len(bad) < 2:
+                        bad.append('weights %s: chosen %s times, %d draws past the end' % (list(ws), counts, fell))
+        rep.ob(clause, 'K12 selection rule', 'getBookMove chooses entry k for exactly weight(k) of the total possible draws (positive weight: positive probability; weight 0: never)',
+               not bad, '%s:%s' % (f.file, ln), 'test: drawn %s running weight, weight added %s the test; %s' % (op, 'before' if before else 'after', bad), f.sname)
